@@ -2,6 +2,7 @@
 //! Usage: acb_verif_harness <family> --seed N --count N
 //! Writes protocol lines (see lean/Driver/Proto.lean) to stdout.
 mod common;
+mod fmv;
 mod ledger;
 mod pages;
 mod rng;
@@ -65,8 +66,37 @@ fn main() {
                 std::process::exit(2);
             }
         }
+        "fmv" => {
+            for (i, c) in fmv::corpus().iter().enumerate() {
+                let mut s = String::new();
+                fmv::run_case(&format!("FC{}", i), c, &mut s);
+                w.write_all(s.as_bytes()).unwrap();
+            }
+            let mut r = rng::Rng::new(seed);
+            for i in 0..count {
+                let mut cr = r.fork();
+                let c = fmv::gen_case(&mut cr);
+                let mut s = String::new();
+                fmv::run_case(&format!("F{}-{}", seed, i), &c, &mut s);
+                w.write_all(s.as_bytes()).unwrap();
+            }
+        }
+        "fmv-replay" => {
+            let mut n = 0;
+            for c in common::read_cases_stdin() {
+                let mut s = String::new();
+                if fmv::replay(&c, &mut s) {
+                    w.write_all(s.as_bytes()).unwrap();
+                    n += 1;
+                }
+            }
+            if n == 0 {
+                eprintln!("no replayable case on stdin");
+                std::process::exit(2);
+            }
+        }
         "pages" => {
-            let exh = arg_val(&args, "--exh", 4) as u32;
+            let exh = arg_val(&args, "--exh", if count >= 2000 { 4 } else { 3 }) as u32;
             pages::run_family(seed, count, exh, &mut w);
         }
         "pages-replay" => {
